@@ -176,6 +176,12 @@ OuterLoop:
 			s.logger.Warn("failed to retrieve transactions from DA layer via helper", "error", res.Message)
 			break OuterLoop
 		}
+		if res.Code == coreda.StatusHeightFromFuture {
+			// the DA layer has not produced this height yet: it is unknown, not empty.
+			// Stop here and retry the same height on the next call instead of skipping it.
+			s.logger.Debug("DA height is from the future, stopping fetching more transactions", "height", nextDAHeight)
+			break OuterLoop
+		}
 		if len(res.Data) == 0 { // TODO: some heights may not have  blobs, find a better way to handle this
 			// stop fetching more transactions and return the current batch
 			s.logger.Debug("no transactions to retrieve from DA layer via helper for", "height", nextDAHeight)
